@@ -49,6 +49,8 @@ package staking
 //@ ghost after call (*github.com/youchainhq/go-youchain/core/state.StateDB).AddStakingRecord: c07Ledger := c07Ledger + big(tx.Value)
 //@ modifies all, c07Ledger
 //@ ensures [value-only-moves] c07Ledger == old(c07Ledger)
+//@ ensures [context-untouched] ctx.AvailableGas == old(ctx.AvailableGas) && c07CtxIs(ctx, old(ctx.Msg), old(ctx.State), old(ctx.GP), old(*ctx.GP), old(ctx.InitialGas), old(ctx.Cfg))
+//@ ensures [config-untouched] ctx.Cfg == old(ctx.Cfg) && ctx.Cfg.CurrYouParams == old(ctx.Cfg.CurrYouParams) && ctx.Cfg.CurrYouParams.Version == old(ctx.Cfg.CurrYouParams.Version)
 
 // Deposit takes effect: the pending amount becomes staked tokens of the validator, or — when the stake limit is exceeded —
 // goes back to the sender ("a deposit … that fails to activate is refunded", protocol version 5).
@@ -95,11 +97,15 @@ package staking
 //@ ghost after call (*github.com/youchainhq/go-youchain/core/state.StateDB).AddStakingRecord: c07Ledger := c07Ledger + big(tx.Value)
 //@ modifies all, c07Ledger
 //@ ensures [value-only-moves] c07Ledger == old(c07Ledger)
+//@ ensures [context-untouched] ctx.AvailableGas == old(ctx.AvailableGas) && c07CtxIs(ctx, old(ctx.Msg), old(ctx.State), old(ctx.GP), old(*ctx.GP), old(ctx.InitialGas), old(ctx.Cfg))
+//@ ensures [config-untouched] ctx.Cfg == old(ctx.Cfg) && ctx.Cfg.CurrYouParams == old(ctx.Cfg.CurrYouParams) && ctx.Cfg.CurrYouParams.Version == old(ctx.Cfg.CurrYouParams.Version)
 
 // Withdraw request: nothing moves yet (the stake moves into the withdraw queue when the request takes effect).
 //@ func handleWithdraw props C07
 //@ modifies all
 //@ ensures [value-only-moves] c07Ledger == old(c07Ledger)
+//@ ensures [context-untouched] ctx.AvailableGas == old(ctx.AvailableGas) && c07CtxIs(ctx, old(ctx.Msg), old(ctx.State), old(ctx.GP), old(*ctx.GP), old(ctx.InitialGas), old(ctx.Cfg))
+//@ ensures [config-untouched] ctx.Cfg == old(ctx.Cfg) && ctx.Cfg.CurrYouParams == old(ctx.Cfg.CurrYouParams) && ctx.Cfg.CurrYouParams.Version == old(ctx.Cfg.CurrYouParams.Version)
 
 //@ effectfree (github.com/youchainhq/go-youchain/common/hexutil.Bytes).String
 
@@ -122,11 +128,15 @@ package staking
 //@ ghost after call addPendingDelegationRecordAndLog: c07Ledger := c07Ledger + big(d.Value)
 //@ modifies all, c07Ledger
 //@ ensures [value-only-moves] c07Ledger == old(c07Ledger)
+//@ ensures [context-untouched] ctx.AvailableGas == old(ctx.AvailableGas) && c07CtxIs(ctx, old(ctx.Msg), old(ctx.State), old(ctx.GP), old(*ctx.GP), old(ctx.InitialGas), old(ctx.Cfg))
+//@ ensures [config-untouched] ctx.Cfg == old(ctx.Cfg) && ctx.Cfg.CurrYouParams == old(ctx.Cfg.CurrYouParams) && ctx.Cfg.CurrYouParams.Version == old(ctx.Cfg.CurrYouParams.Version)
 
 // Un-delegation request: nothing moves yet.
 //@ func handleDelegationSub props C07
 //@ modifies all
 //@ ensures [value-only-moves] c07Ledger == old(c07Ledger)
+//@ ensures [context-untouched] ctx.AvailableGas == old(ctx.AvailableGas) && c07CtxIs(ctx, old(ctx.Msg), old(ctx.State), old(ctx.GP), old(*ctx.GP), old(ctx.InitialGas), old(ctx.Cfg))
+//@ ensures [config-untouched] ctx.Cfg == old(ctx.Cfg) && ctx.Cfg.CurrYouParams == old(ctx.Cfg.CurrYouParams) && ctx.Cfg.CurrYouParams.Version == old(ctx.Cfg.CurrYouParams.Version)
 
 // ---------------------------------------------------------------------------------------------------------------
 // Take-effect handlers (end of the staking period): pending ⇒ staked, or ⇒ refunded (V5); staked ⇒ withdraw queue.
@@ -261,3 +271,108 @@ package staking
 //@     initStat.Roles[params.RoleHouse].rewardsDistributable == entry(initStat.Roles[params.RoleHouse].rewardsDistributable)
 //@ loop #3 invariant [copy-untouched] big(oldVal.Token) == entry(big(oldVal.Token)) && big(oldVal.RewardsDistributable) == entry(big(oldVal.RewardsDistributable))
 //@ loop #4 invariant [copy-untouched] big(oldVal.Token) == entry(big(oldVal.Token)) && big(oldVal.RewardsDistributable) == entry(big(oldVal.RewardsDistributable))
+
+// ---------------------------------------------------------------------------------------------------------------
+// The staking converter: "fees paid equal rewards credited", staking side.
+// ApplyMessageEntry charges the sender for InitialGas - AvailableGas (refundGas hands AvailableGas x price back) and ApplyTransaction
+// credits header.GasRewards with price x the gas figure the converter REPORTS: the two agree only if, on every return, the
+// reported figure is the gas actually consumed from the message context. (Twin of C17's [used-gas] / [reported-gas-is-charged-gas].)
+// Before YouV4 a failed staking transaction reports the whole gas limit while only the intrinsic gas is consumed: that is the
+// recorded known finding (/verif/known_findings.json, C17 ApplyMessageEntry, region `… || cfg.CurrYouParams.Version < params.YouV4`);
+// the clause is stated for YouV4 and later, the complement of that region.
+// ---------------------------------------------------------------------------------------------------------------
+
+//@ func (github.com/youchainhq/go-youchain/core.Message).Data props C07
+//@ trusted
+//@ pure
+
+// The nine request handlers are reached through the `handlers` table (function value of type handlerFn). TRUSTED dispatch: the
+// clauses below are exactly those every function stored in the table (handler.go / delegation_handler.go, `init` of tx_converter.go)
+// and the fallback closure getHandler$1 are VERIFIED against in this file ([value-only-moves], [context-untouched], [config-untouched]);
+// that the table holds only those nine functions is read off `init` (not machine-checked).
+//@ func dynamic:handlerFn props C07
+//@ trusted
+//@ modifies all, c07Ledger
+//@ ensures [value-only-moves] c07Ledger == old(c07Ledger)
+//@ ensures [context-untouched] ctx.AvailableGas == old(ctx.AvailableGas) && c07CtxIs(ctx, old(ctx.Msg), old(ctx.State), old(ctx.GP), old(*ctx.GP), old(ctx.InitialGas), old(ctx.Cfg))
+//@ ensures [config-untouched] ctx.Cfg == old(ctx.Cfg) && ctx.Cfg.CurrYouParams == old(ctx.Cfg.CurrYouParams) && ctx.Cfg.CurrYouParams.Version == old(ctx.Cfg.CurrYouParams.Version)
+
+//@ func getHandler props C07
+//@ pure
+//@ opt noalloc
+
+//@ func getHandler$1 props C07
+//@ modifies nothing
+//@ ensures [refuses] result == errUnsupportedActionType
+
+// The four request handlers that move no value (they only record the pending transaction): same clauses as the other five, so that
+// every entry of the `handlers` table is verified against what dynamic:handlerFn promises.
+//@ func handleUpdate props C07
+//@ modifies all
+//@ ensures [value-only-moves] c07Ledger == old(c07Ledger)
+//@ ensures [context-untouched] ctx.AvailableGas == old(ctx.AvailableGas) && c07CtxIs(ctx, old(ctx.Msg), old(ctx.State), old(ctx.GP), old(*ctx.GP), old(ctx.InitialGas), old(ctx.Cfg))
+//@ ensures [config-untouched] ctx.Cfg == old(ctx.Cfg) && ctx.Cfg.CurrYouParams == old(ctx.Cfg.CurrYouParams) && ctx.Cfg.CurrYouParams.Version == old(ctx.Cfg.CurrYouParams.Version)
+
+//@ func handleSettle props C07
+//@ modifies all
+//@ ensures [value-only-moves] c07Ledger == old(c07Ledger)
+//@ ensures [context-untouched] ctx.AvailableGas == old(ctx.AvailableGas) && c07CtxIs(ctx, old(ctx.Msg), old(ctx.State), old(ctx.GP), old(*ctx.GP), old(ctx.InitialGas), old(ctx.Cfg))
+//@ ensures [config-untouched] ctx.Cfg == old(ctx.Cfg) && ctx.Cfg.CurrYouParams == old(ctx.Cfg.CurrYouParams) && ctx.Cfg.CurrYouParams.Version == old(ctx.Cfg.CurrYouParams.Version)
+
+//@ func handleChangeStatus props C07
+//@ modifies all
+//@ ensures [value-only-moves] c07Ledger == old(c07Ledger)
+//@ ensures [context-untouched] ctx.AvailableGas == old(ctx.AvailableGas) && c07CtxIs(ctx, old(ctx.Msg), old(ctx.State), old(ctx.GP), old(*ctx.GP), old(ctx.InitialGas), old(ctx.Cfg))
+//@ ensures [config-untouched] ctx.Cfg == old(ctx.Cfg) && ctx.Cfg.CurrYouParams == old(ctx.Cfg.CurrYouParams) && ctx.Cfg.CurrYouParams.Version == old(ctx.Cfg.CurrYouParams.Version)
+
+//@ func handleDelegationSettle props C07
+//@ modifies all
+//@ ensures [value-only-moves] c07Ledger == old(c07Ledger)
+//@ ensures [context-untouched] ctx.AvailableGas == old(ctx.AvailableGas) && c07CtxIs(ctx, old(ctx.Msg), old(ctx.State), old(ctx.GP), old(*ctx.GP), old(ctx.InitialGas), old(ctx.Cfg))
+//@ ensures [config-untouched] ctx.Cfg == old(ctx.Cfg) && ctx.Cfg.CurrYouParams == old(ctx.Cfg.CurrYouParams) && ctx.Cfg.CurrYouParams.Version == old(ctx.Cfg.CurrYouParams.Version)
+
+// requires: the accounting invariant of a bought message context (buyGas sets both figures to the gas limit, UseGas only lowers AvailableGas).
+//@ func (*TxConverter).ApplyMessage props C07
+//@ requires [gas-accounting] msgCtx.AvailableGas <= msgCtx.InitialGas
+//@ let version = msgCtx.Cfg.CurrYouParams.Version
+//@ modifies all, c07Ledger
+//@ ensures [reported-gas-is-consumed-gas] result3 == nil && version >= params.YouV4 ==> result1 == msgCtx.InitialGas - msgCtx.AvailableGas
+//@ ensures [context-untouched] c07CtxIs(msgCtx, old(msgCtx.Msg), old(msgCtx.State), old(msgCtx.GP), old(*msgCtx.GP), old(msgCtx.InitialGas), old(msgCtx.Cfg))
+//@ ensures [gas-only-consumed] msgCtx.AvailableGas <= old(msgCtx.AvailableGas)
+//@ ensures [refused-consumes-nothing] result3 != nil ==> result1 == 0 && msgCtx.AvailableGas == old(msgCtx.AvailableGas)
+//@ ensures [value-only-moves] c07Ledger == old(c07Ledger)
+
+// ---------------------------------------------------------------------------------------------------------------
+// Periphery: the remaining take-effect handlers and the YouV5 per-block validator maintenance move no value. Each replaces a stored
+// record through UpdateValidator: the call-site precondition [current] (the `old` handed over carries what the ledger holds) is what
+// "rewards distributed to a validator are never lost" needs from them.
+// ---------------------------------------------------------------------------------------------------------------
+
+// decoding targets of teUpdate / teChangeStatus: DecodeBytes's frame covers their fields (specs/stdlib/c07_repo_helpers.spec)
+//@ func teUpdate props C07
+//@ modifies all, c07Ledger, c07Tok, c07RD
+//@ ensures [value-only-moves] c07Ledger == old(c07Ledger)
+
+//@ func teChangeStatus props C07
+//@ modifies all, c07Ledger, c07Tok, c07RD
+//@ ensures [value-only-moves] c07Ledger == old(c07Ledger)
+
+//@ func teNoop props C07
+//@ modifies nothing
+//@ ensures [nothing] result == nil
+
+// An expelled validator whose ban expired is re-admitted: flags only.
+//@ func recoverFromExpiredExpelling props C07
+//@ requires [current] c07Current(val)
+//@ requires c07ValWF(val)
+//@ modifies all, c07Ledger, c07Tok, c07RD
+//@ ensures [value-only-moves] c07Ledger == old(c07Ledger)
+//@ ensures [still-current] c07Current(val)
+
+// Inactivity penalty (YouV5): Token x fraction / 100 goes to the penalty account through doPenalize ("penalties arrive in the penalty account").
+//@ func inactivitySlashing props C07
+//@ requires [current] c07Current(val)
+//@ requires c07ValWF(val) && big(val.Token) >= 0
+//@ requires [fraction-is-a-percentage] ctx.config.PenaltyFractionForInactive <= 100     // protocol parameter (0 or 1 in every version); int64() of it must not wrap
+//@ modifies all, c07Ledger, c07Tok, c07RD
+//@ ensures [value-only-moves] c07Ledger == old(c07Ledger)
